@@ -20,7 +20,7 @@ def gen_lrubytes_trace(seed, tidn, maxe, maxb, n):
         k = r.choice(KEYS)
         if x < 0.55:
             v = r.randrange(1, 1000)
-            cost = r.choice([0, 1, r.randrange(0, hi + 2), r.randrange(0, max(2, hi // 3))])
+            cost = r.choice([0, 1, -3, r.randrange(0, hi + 2), r.randrange(0, max(2, hi // 3))])
             evn, evb = c.put(k, v, cost)
             ev.append({"op": "put", "k": k, "v": v, "c": cost, "evn": evn, "evb": evb})
         elif x < 0.85:
